@@ -168,7 +168,7 @@ def run_impl(script_lines, timeout=60, san=None):
     # gcc 12's libasan aborts inside its own sigaltstack interceptor when a thread is cancelled
     # (pthread_cancel from rtr_stop): scripts with a stop event run under UBSan + asserts only
     if san is None:
-        san = "ubsan" if any(l.startswith("ev stop") for l in script_lines) else "asan"
+        san = "ubsan" if any(l.startswith(("ev stop", "stopcb")) for l in script_lines) else "asan"
     rc, out = vlib.run_lines(impl_exe(san), "\n".join(script_lines) + "\n", env=vlib.san_env(), timeout=timeout)
     return rc, [l for l in out if l != "" and not _DBG.match(l)]
 
@@ -186,7 +186,7 @@ class Trace:
         self.crash = None
         cur = None
         known = ("SLEEP", "END", "OPEN", "CLOSE", "SENDFAIL", "SEND", "RECV", "PFXCB", "KEYCB", "STATE", "DUMP", "REC", "ENDDUMP",
-                 "INIT", "STARTFAIL", "STOPPING")
+                 "INIT", "STARTFAIL", "STOPPING", "STOPCB")
         for i, l in enumerate(lines):
             w = l.split()
             if not w or w[0] not in known:
